@@ -60,7 +60,7 @@ def miri_extra(prop, argv_seeds, miri_seeds):
 
 META["C03"] = {
     "title": "Sources and single-input operators compute their documented sequence",
-    "rule": "cases = (operator chain AST, input script). Enumerated: every single-input operator x every parameter in 0..n+1 / predicate family x every script over {0,1,2} up to length n (quick 3, thorough 6) x terminal {none,complete,error} x sources {Subject, create (sync and stashed-handle), from_iter}; every basic source alone and under every operator; plus seeded random chains of depth 2..5 with post-terminal events. A case is non-trivial when the reference model's expected output contains an item, or terminates although the input did not, or ends with an error; distinct = distinct hash of (AST, script).",
+    "rule": "cases = (operator chain AST, input script). Enumerated: every single-input operator x every parameter in 0..n+1 / predicate family x every script over {0,1,2} up to length n (quick 3, thorough 6) x terminal {none,complete,error} x sources {Subject, create (sync and stashed-handle), from_iter}; every basic source alone and under every operator; plus seeded random chains of depth 2..5 with post-terminal events. Long scripts (counter long_script_cases): chains of 1-2 operators with parameters up to 12 over scripts of up to 40 items from an alphabet of 12 values (operators that remember what they have seen or keep the last n items). A case is non-trivial when the reference model's expected output contains an item, or terminates although the input did not, or ends with an error; distinct = distinct hash of (AST, script).",
     "assumptions": COMMON_ASSUME + [
         "reference list semantics are written from the doc comments in src/observable.rs; where they are silent (take(0) on an unterminated input) both behaviours are accepted",
         "buffer_with_count(0) and float `average` are exercised only in the typed static battery",
@@ -69,7 +69,7 @@ META["C03"] = {
     "level_text": "Exploration: every enumerated (operator, parameter, script, source) case and every sampled random chain is executed against the real operators and compared item-by-item with a reference model; no claim beyond the cases counted in the evidence.",
     "level_note": "Trusted: the reference model (harness/src/model.rs), the recording probe, rustc. The model's relaxations are listed in DESIGN.md §5 C03.",
     "design_ref": "DESIGN.md §5 C03",
-    "require": {"quick": {"operators_covered": 45}, "thorough": {"operators_covered": 45}},
+    "require": {"quick": {"operators_covered": 45, "long_script_cases": 40000}, "thorough": {"operators_covered": 45, "long_script_cases": 2000000}},
 }
 
 META["C04"] = {
@@ -186,7 +186,7 @@ META["C09"] = {
 
 META["C15"] = {
     "title": "finalize runs its callback exactly once per subscription",
-    "rule": "cases = (0-2 upstream operators incl. early-terminating ones, hot Subject or stashed create() handle as source, finalize | finalize_threads directly above the probe, history of length <= 6 quick / <= 10 thorough over item / complete / error / unsubscribe (terminals repeated through cloned handles), plain unsubscribe or guard drop). Non-trivial: the history contains at least two terminating triggers (e.g. complete then unsubscribe); distinct = hash(case). first_trigger_* counters show which event ended the subscriptions. Exhaustively, every history of length <= 4 quick / <= 5 thorough over item / unsubscribe(k<3) / complete / error on THREE subscriptions made from clones of one finalize(..) / finalize_threads(..) value over one hot subject: after every step the number of callback runs equals the number of subscriptions that have ended (counter histories_over_cloned_finalize_values). The racing-thread part (terminating thread vs unsubscribing thread) runs under the baton scheduler (thread_* counters).",
+    "rule": "cases = (0-2 upstream operators incl. early-terminating ones, hot Subject or stashed create() handle as source, finalize | finalize_threads directly above the probe, history of length <= 6 quick / <= 10 thorough over item / complete / error / unsubscribe (terminals repeated through cloned handles), plain unsubscribe or guard drop). Non-trivial: the history contains at least two terminating triggers (e.g. complete then unsubscribe); distinct = hash(case). first_trigger_* counters show which event ended the subscriptions. Exhaustively, every history of length <= 4 quick / <= 5 thorough over item / unsubscribe(k<3) / complete / error on THREE subscriptions made from clones of one finalize(..) / finalize_threads(..) value over one hot subject: after every step the number of callback runs equals the number of subscriptions that have ended (counter histories_over_cloned_finalize_values). A quarter of the random cases stack a second finalize directly above the one under test (both owe their callback at the same event); over create sources a third put take(1|2)/first BELOW finalize, where the event that ends finalize's own subscription is the terminal that reaches it from above (recorded by a transparent spy), not the subscriber's. The racing-thread part (terminating thread vs unsubscribing thread) runs under the baton scheduler (thread_* counters).",
     "assumptions": COMMON_ASSUME + [
         "finalize is placed last, so 'the subscription is completed / failed' is exactly 'the probe saw the terminal'",
         "'right after' = before the next step of the history begins, and for an unsubscription before unsubscribe() returns",
@@ -200,7 +200,7 @@ META["C15"] = {
 
 META["C20"] = {
     "title": "group_by sends every item to exactly one group, in order",
-    "rule": "cases = (key function in {constant, identity, mod 2, mod 3}, script, group subject type Subject|SubjectThreads, hot Subject or cold create source). Enumerated: every script over {0,1,2,3} up to length 5 quick / 7 thorough x terminal {none, complete, error}; plus seeded random scripts up to length 8/12 with post-terminal events. A probe is attached to each group inside the outer observer's next (as the group is announced). Hot cases are additionally flattened back through group_by+flat_map and compared with the source. group_by takes an FnMut: every enumerated script also runs with stateful discriminators (key of the i-th item handed over = i/n for n in 1..3, whatever the item; counter cases_with_a_stateful_discriminator), as does a fifth of the random scripts. Non-trivial: at least two groups and one group with at least two items; distinct = hash(case).",
+    "rule": "cases = (key function in {constant, identity, mod 2, mod 3}, script, group subject type Subject|SubjectThreads, hot Subject or cold create source). Enumerated: every script over {0,1,2,3} up to length 5 quick / 7 thorough x terminal {none, complete, error}; plus seeded random scripts up to length 8/12 with post-terminal events. A probe is attached to each group inside the outer observer's next (as the group is announced). Hot cases are additionally flattened back through group_by+flat_map and compared with the source. group_by takes an FnMut: every enumerated script also runs with stateful discriminators (key of the i-th item handed over = i/n for n in 1..3, whatever the item; counter cases_with_a_stateful_discriminator), as does a fifth of the random scripts. A third of the random scripts and half of the stateful enumerated ones use a key type whose Hash is coarser than its Eq (all even keys collide, all odd keys collide; counter cases_with_colliding_key_hashes); a third attach a second subscriber to every group ahead of the probe and unsubscribe it at once (counter cases_with_a_closed_subscriber_ahead_in_each_group). Non-trivial: at least two groups and one group with at least two items; distinct = hash(case).",
     "assumptions": COMMON_ASSUME + [
         "the relative order of the groups' terminals and the outer terminal is not part of the property and not checked",
         "'the key of an item' is what the discriminator returns when it is applied once to every source item in source order (it is an FnMut in the API); the pure functions of the stated family cannot tell, the stateful ones can",
@@ -209,7 +209,7 @@ META["C20"] = {
     "level_text": "Exploration: enumerated scripts x key functions plus random scripts, each compared with the partition model.",
     "level_note": "Trusted: partition model in harness/src/props/c20.rs, probes.",
     "design_ref": "DESIGN.md §5 C20",
-    "require": {"quick": {"group_subject_types": 2, "cases_with_a_stateful_discriminator": 20000}, "thorough": {"group_subject_types": 2, "cases_with_a_stateful_discriminator": 500000}},
+    "require": {"quick": {"group_subject_types": 2, "cases_with_a_stateful_discriminator": 20000, "cases_with_colliding_key_hashes": 10000, "cases_with_a_closed_subscriber_ahead_in_each_group": 10000}, "thorough": {"group_subject_types": 2, "cases_with_a_stateful_discriminator": 500000}},
 }
 
 META["C16"] = {
@@ -272,7 +272,7 @@ META["C11"] = {
 
 META["C13"] = {
     "title": "Cold pipelines are lazy and every subscription is independent",
-    "rule": "cases = (cold chain built with the CLONEABLE builder: source in from_iter / counting iterator / of / of_fn / start / defer(nested chain) / create(sync script) / repeat / empty / throw / of_result / of_option / interval.take(k) / scripted from_stream / from_future_result on the virtual clock; 0..n operators (quick n=3, thorough n=5) drawn from the stateful catalogue (scan, last, default_if_empty, distinct*, skip*, take*, pairwise, buffer*, collect, start_with, reduce, count, delay, debounce, throttle(_time) all edges, buffer_with_time, buffer_with_count_and_time, observe_on, delay_subscription, subscribe_on, two-input operators over cold sub-chains), optionally finalize last; 2-3 clones subscribed successively | overlapping (next clone joins while the previous still runs) | nested (next clone subscribed from inside the previous one's first item callback)). Checked: no log event, spawned task or timer before the first subscription; source closures called once per subscription; every subscription's (virtual-time-relative) trace equals the first one's; finalize runs once per ended subscription. FIFO scheduler model (equal deadlines in creation order) so that identical subscriptions behave identically. Non-trivial: at least two subscriptions of a chain with at least one stateful operator; distinct = hash(case).",
+    "rule": "cases = (cold chain built with the CLONEABLE builder: source in from_iter / counting iterator / of / of_fn / start / defer(nested chain) / create(sync script) / repeat / empty / throw / of_result / of_option / interval.take(k) / scripted from_stream / from_future_result on the virtual clock; 0..n operators (quick n=3, thorough n=5) drawn from the stateful catalogue (scan, last, default_if_empty, distinct*, skip*, take*, pairwise, buffer*, collect, start_with, reduce, count, delay, debounce, throttle(_time) all edges, buffer_with_time, buffer_with_count_and_time, observe_on, delay_subscription, subscribe_on, two-input operators over cold sub-chains), optionally finalize last; 2-3 clones subscribed successively | overlapping (next clone joins while the previous still runs) | nested (next clone subscribed from inside the previous one's first item callback)). Checked: no log event, spawned task or timer before the first subscription; source closures called once per subscription; every subscription's (virtual-time-relative) trace equals the first one's; finalize runs once per ended subscription. In a quarter of the cases every subscription is explicitly unsubscribed once it has run dry, before the next clone is subscribed (giving up one subscription must not reach into another clone's). FIFO scheduler model (equal deadlines in creation order) so that identical subscriptions behave identically. Non-trivial: at least two subscriptions of a chain with at least one stateful operator; distinct = hash(case).",
     "assumptions": COMMON_ASSUME + [
         "timer, share and the flattening operators are not Clone-able (TimerObservable / MergeAllOp are not Clone; share is shared by design) and are not part of this check",
     ],
@@ -299,7 +299,7 @@ META["C17"] = {
 
 META["C18"] = {
     "title": "Local and thread-safe variants are observationally equivalent",
-    "rule": "cases = the C01 pipeline generator (whole catalogue, 1-3 hot inputs, stashed create handles, cold and timed sources, depth <= 3 quick / <= 5 thorough) with its timed scripts; every case is built twice - local builder and threads builder (every operator, subject, subscription and scheduler in its _threads / Threads form) - and driven from one thread with the same FIFO executor and the same explorer seed. The final subscriber's trace (notifications and virtual stamps; stamps dropped when the pipeline reads the real clock through an _at form) must be identical. Non-trivial: the pair delivered at least one notification and contains an operator with a hand-duplicated threads part; distinct = hash(pipeline, scripts).",
+    "rule": "cases = the C01 pipeline generator (whole catalogue, 1-3 hot inputs, stashed create handles, cold and timed sources, depth <= 3 quick / <= 5 thorough) with its timed scripts; every case is built twice - local builder and threads builder (every operator, subject, subscription and scheduler in its _threads / Threads form) - and driven from one thread with the same FIFO executor and the same explorer seed. The final subscriber's trace (notifications and virtual stamps; stamps dropped when the pipeline reads the real clock through an _at form) must be identical. Second battery (counter subject_histories_compared): random histories of length 3..11 quick / 3..17 thorough over subscribe(k) / unsubscribe(k) / arm-a-subscribe-from-inside-subscriber-k's-callback / next / complete / error / retain() run on Subject and on SubjectThreads from one thread: the global order of deliveries across all subscribers and the len()/is_empty() readings after every step must be identical (a history on which the local subject panics is skipped). Non-trivial: the pair delivered at least one notification and contains an operator with a hand-duplicated threads part; distinct = hash(pipeline, scripts).",
     "assumptions": COMMON_ASSUME + [
         "group_by terminates its groups in HashMap order: inside generated pipelines it is always flattened, which makes that order unobservable",
         "a panic in both forms at once counts as equivalent here (panics are C05/C10's business)",
@@ -308,7 +308,7 @@ META["C18"] = {
     "level_text": "Exploration over sampled pipelines; pairwise trace equality.",
     "level_note": "Trusted: the two builder flavours come from one macro; explorer determinism.",
     "design_ref": "DESIGN.md §5 C18",
-    "require": {"quick": {"dual_form_operators_covered": 15}, "thorough": {"dual_form_operators_covered": 15}},
+    "require": {"quick": {"dual_form_operators_covered": 15, "subject_histories_compared": 100000}, "thorough": {"dual_form_operators_covered": 15, "subject_histories_compared": 3000000}},
 }
 
 META["C10"] = {
@@ -330,7 +330,7 @@ META["C10"] = {
 
 META["C12"] = {
     "title": "BehaviorSubject hands every new subscriber the current value first",
-    "rule": "sequential part: random histories of length <= 10 quick / <= 24 thorough over next / next_by / clone / subscribe / unsubscribe / peek / complete / error on BehaviorSubject over Subject and over SubjectThreads, <= 3 subscribers, compared step by step with a model (first item of a new subscriber = most recent value passed to any clone, peek() = that value, next_by(f) emits f(that value), every later item exactly once); non-trivial: a subscriber joined after at least one next. Thread part: 2-3 producer threads and late subscribers on BehaviorSubject<_, SubjectThreads> under the baton scheduler: at quiescence peek() must equal the last item of the order observed by the always-present subscriber, a late subscriber's sequence must be [v] followed by the suffix of that order that follows v, and the always-present subscriber must have received every item whose next() returned exactly once (no terminal or unsubscribe is scripted); the same producers also run free on OS threads with seeded jitter at the lock points. distinct = hash(history) / hash(scenario, schedule).",
+    "rule": "sequential part: random histories of length <= 10 quick / <= 24 thorough over next / next_by / clone / subscribe / unsubscribe / peek / complete / error on BehaviorSubject over Subject and over SubjectThreads, <= 3 subscribers, compared step by step with a model (first item of a new subscriber = most recent value passed to any clone, peek() = that value, next_by(f) emits f(that value), every later item exactly once); non-trivial: a subscriber joined after at least one next. Thread part: 2-3 producer threads and late subscribers on BehaviorSubject<_, SubjectThreads> under the baton scheduler: at quiescence peek() must equal the last item of the order observed by the always-present subscriber, a late subscriber's sequence must be [v] followed by the suffix of that order that follows v, and the always-present subscriber must have received every item whose next() returned exactly once (no terminal or unsubscribe is scripted); every other item is emitted through next_by(|_| item); the same producers also run free on OS threads with seeded jitter at the lock points. distinct = hash(history) / hash(scenario, schedule).",
     "assumptions": COMMON_ASSUME + [
         "after a terminal, a new subscriber may receive the stored value alone or followed by nothing else; the stored value follows the statement (most recent value passed to any clone)",
     ],
